@@ -195,6 +195,10 @@ class Setting:
             raise mir.Unsupported("and_then on opaque option")
         if v.variant == "None":
             return v
+        if isinstance(clo, sym.FnV) and "{closure" not in clo.name:
+            # a named function as the callback: the wider vocabulary knows how to give it the model a direct call would get
+            import stdmodels
+            return stdmodels.m_option_method(engine, st, fr, callee, args, ops)
         return sym.Inline(engine.resolve_fn(clo.name), [clo, v.fields[0]])
 
     def models(self):
